@@ -351,6 +351,37 @@ def validate_trace(ctx, name, module, trace_path, consts=None, timeout=1800, xmx
 
 
 # ----------------------------------------------------------------------------------------------- traces
+def binding_selftest(ctx, name, module, trace_path, consts, corrupt, max_cases=40, skip=()):
+    """Binding self-test (DESIGN.md 3.3): take accepted cases of a recorded trace, corrupt one logged field (function
+    corrupt(list_of_events) -> bool, returning True if it changed something) and require that TLC now rejects exactly the
+    corrupted cases. A trace module that accepts a corrupted trace is a broken check => ToolError."""
+    cases = split_cases(trace_path)
+    out = ctx.path("selftest-%s.ndjson" % name)
+    corrupted = set()
+    n = 0
+    with open(out, "w") as f:
+        for k, evs in cases.items():
+            if n >= max_cases:
+                break
+            if k in skip:
+                continue
+            evs = json.loads(json.dumps(evs))
+            if n % 2 == 0 and corrupt(evs):
+                corrupted.add(k)
+            n += 1
+            for e in evs:
+                f.write(json.dumps(e) + "\n")
+    saved = ctx.replay_module
+    v = validate_trace(ctx, "selftest-" + name, module, out, consts)
+    ctx.replay_module = saved
+    missed = corrupted - v.violations
+    ctx.extra.setdefault("binding_selftest", {})[name] = {"corrupted_cases": len(corrupted), "rejected": len(corrupted & v.violations),
+                                                          "uncorrupted_rejected": len(v.violations - corrupted)}
+    if missed or not corrupted:
+        raise ToolError("binding self-test %s: corrupted cases %s were accepted by %s (or nothing could be corrupted)" % (name, sorted(missed)[:5], module))
+    return v
+
+
 def split_cases(trace_path):
     """ndjson trace -> {case: [lines]} (each case starts with an 'ev':'reset' line)"""
     cases = {}
